@@ -17,7 +17,8 @@ MANY_METRICS = EXACT_METRICS + ["seuclidean", "mahalanobis", "cosine", "correlat
                                 "minkowski", "hamming", "seuclidean", "mahalanobis"]
 
 INT_POOL = [1, 2, 3, 0, -1, 7, 10, 4]
-STR_POOL = ["a", "b", "ab", "abc", "A", "1", "arm 2", "b ", "z"]
+# (names that spell numbers, non-finite ones included, are names all the same)
+STR_POOL = ["a", "b", "ab", "abc", "A", "1", "arm 2", "b ", "z", "nan", "inf", "1e5"]
 FLOAT_POOL = [0.5, 1.5, 2.0, -1.0, 2.5, 1.0, 3.25, 0.0]
 MIX_POOL = [1, 2.5, 3, 0.5, 2, -1.5, 4, 0]
 # float labels that differ in the last digits only (distinct arms all the same)
